@@ -212,7 +212,7 @@ fn judge_reader(run: &ReaderRun, reference: &ReaderRun, ctx: &Ctx, st: &mut RunS
 }
 
 fn prog_fp(case: &Case) -> u64 {
-    let wc = WriterCase { prog: case.prog.clone(), wchunk: case.wchunk.clone(), rchunk: case.rchunk.clone(), sink: Chunk::Full };
+    let wc = WriterCase { prog: case.prog.clone(), wchunk: case.wchunk.clone(), rchunk: case.rchunk.clone(), sink: Chunk::Full, legacy_blob_headers: false };
     shape_fingerprint(&wc, None)
 }
 
